@@ -367,7 +367,6 @@ func (pc *progCase) run(t *testing.T, r *Rng, sc *scenario) (string, bool) {
 			pc.emitCoq(msg, be, eT, gT, sE, sG, preE, preG, nextNum, scratchCtx, gcopy, dedup(known))
 		}
 		// real runs
-		feeBefore := w.c.EvmBal(base, w.feeCollector)
 		eO := w.runEvermint(base, tx, msg)
 		gO, _ := w.runGeth(gs, be, msg, tx.Hash(), ti, false)
 		pc.rep.Evermint = append(pc.rep.Evermint, eO.summary())
@@ -403,7 +402,7 @@ func (pc *progCase) run(t *testing.T, r *Rng, sc *scenario) (string, bool) {
 			if d == "panic" {
 				d = "panic:" + panicClass(eO.Panic)
 			}
-			pc.hit("C02/gethdiff/prog/"+d+pc.tag(eTr, gTr, eT, gT), fmt.Sprintf("tx %d: evermint %s | go-ethereum %s", ti, eO.summary(), gO.summary()))
+			pc.hit("C02/gethdiff/prog/"+d, fmt.Sprintf("tx %d: evermint %s | go-ethereum %s", ti, eO.summary(), gO.summary()))
 		}
 		// (2) consistency of the traced composition with the real path on each side
 		if d := diffOutcome(eO, eT); len(d) > 0 {
@@ -415,7 +414,7 @@ func (pc *progCase) run(t *testing.T, r *Rng, sc *scenario) (string, bool) {
 		// (3) the interpreter saw the same StateDB operations with the same observations
 		if eT.Panic == "" && gT.Panic == "" && eT.Core == "" && gT.Core == "" {
 			if where := firstOpDiff(interpOps(eT.Ops, false), interpOps(gT.Ops, true), w); where != "" {
-				pc.hit("C02/gethdiff/prog/statedb-op-trace"+pc.tag(eTr, gTr, eT, gT), fmt.Sprintf("tx %d: %s", ti, where))
+				pc.hit("C02/gethdiff/prog/statedb-op-trace", fmt.Sprintf("tx %d: %s", ti, where))
 			}
 		}
 		if eO.Core != "" || gO.Core != "" || eO.Panic != "" || gO.Panic != "" {
@@ -439,7 +438,6 @@ func (pc *progCase) run(t *testing.T, r *Rng, sc *scenario) (string, bool) {
 			gs.Finalise(false)
 		}
 		feeAcc.Add(feeAcc, new(big.Int).Mul(msg.GasPrice(), new(big.Int).SetUint64(eO.GasUsed)))
-		_ = feeBefore
 		for _, a := range dedup(addrs) {
 			ev, gv := w.evmView(base, a), gethView(gs, a)
 			if a == be.cfg.CoinBase { // documented: go-ethereum tips the coinbase
@@ -449,7 +447,7 @@ func (pc *progCase) run(t *testing.T, r *Rng, sc *scenario) (string, bool) {
 				ev.Balance = new(big.Int).Sub(ev.Balance, feeAcc)
 			}
 			if ok, what := viewsEqual(ev, gv); !ok {
-				pc.hit("C02/gethdiff/prog/post-state-"+what+"@"+w.class(a)+pc.tag(eTr, gTr, eT, gT),
+				pc.hit("C02/gethdiff/prog/post-state-"+what+"@"+w.class(a),
 					fmt.Sprintf("tx %d: %s: evermint %s | go-ethereum %s", ti, a.Hex(), ev, gv))
 			}
 			if ev.Exists != gv.Exists {
@@ -461,11 +459,6 @@ func (pc *progCase) run(t *testing.T, r *Rng, sc *scenario) (string, bool) {
 		pc.side.Histogram["gen:"+k] += v
 	}
 	return strings.Join(canon, "|"), nontrivial
-}
-
-// tag refines a signature with the special address classes the transaction touched (for known findings).
-func (pc *progCase) tag(eTr, gTr *topTracer, eT, gT outcome) string {
-	return ""
 }
 
 func panicClass(p string) string {
